@@ -214,6 +214,15 @@ pub fn f4_bytes(rng: &mut Rng, name: &str) -> Def {
                 }
                 def.push(Pat::new(PatKind::Regex, Lit::b(&data), 0));
             }
+            2 if rng.chance(1, 3) => {
+                // byte-string literals that are truncated / mixed UTF-8, next to class patterns of the same length
+                let lit: &[u8] = *rng.pick(&[&b"\xE2\x82"[..], &b"\xF0\x9F\x98"[..], &b"\xC3\xA9\xFF"[..], &b"a\xE2\x82"[..], &b"\xC3\xA9"[..], &b"\xE2\x82\xE2\x82[\x80-\xBF]"[..], &b"\xFF\xFE"[..]]);
+                def.push(Pat::new(PatKind::Regex, Lit::b(lit), 0));
+                if rng.chance(2, 3) {
+                    let cls: &[u8] = *rng.pick(&[&b"[\xE0-\xEF][\x80-\xBF]"[..], &b"[\xF0-\xF4][\x80-\xBF][\x80-\xBF]"[..], &b"[\xC0-\xDF][\x80-\xBF][\xF0-\xFF]"[..], &b"[a-z][\xE0-\xEF][\x80-\xBF]"[..], &b"[\x80-\xFF]+"[..]]);
+                    def.push(Pat::new(PatKind::Regex, Lit::b(cls), 0));
+                }
+            }
             2 if rng.chance(1, 2) => {
                 let a = *rng.pick(&['a', 'x', '0', '<']);
                 let hole = rng.pick_str(&["x", "\\x00", "\\xFF", "\\n", "a", "\\x80", "ac", "\\x00\\xFF"]);
@@ -382,8 +391,10 @@ pub fn f10_subpat(rng: &mut Rng, name: &str) -> Def {
     let mut names: Vec<String> = vec![];
     for i in 0..nsub {
         let nm = rng.pick_str(&["a", "sub", "x1", "A_b", "digit", "w"]).to_string() + &i.to_string();
-        let mut text = match rng.below(6) {
+        let mut text = match rng.below(7) {
             0 => rng.pick_str(&["a|b", "x|yz|", "[0-9]", "(?i)k", "(?i)s|t", "a+", "(?s).", "(?-u)[^a]", "ab?", "(a|b)c"]).to_string(),
+            // literal blanks and '#': meaningful unless the *including* pattern is in verbose mode
+            6 => rng.pick_str(&["a b", " ", "x #y", "[a-c] +", "- -", "q\\ r"]).to_string(),
             1 => format!("(?i){}", rand_re(rng, &cfg, 1).render()),
             _ => rand_re(rng, &cfg, 0).render(),
         };
@@ -411,7 +422,16 @@ pub fn f10_subpat(rng: &mut Rng, name: &str) -> Def {
     for _ in 0..n {
         let r = rng.pick(&names).clone();
         let other = rand_re(rng, &ReCfg::basic(), 2).render();
-        let text = match rng.below(7) {
+        let text = match rng.below(10) {
+            // verbose mode active at the reference
+            7 => format!("(?x) [a-z]+ (?&{r}) [0-9]+"),
+            8 => format!("(?x: (?&{r}) ) z | k(?&{r})"),
+            // literal non-ASCII text around the references, short tails after the last one
+            9 => {
+                let pre = rng.pick_str(&["é", "[äöü]", "🦀", "λ€", "ß+"]);
+                let tail = rng.pick_str(&["x", "?", "kg", "+", "é", ""]);
+                format!("{pre}(?&{r}){tail}")
+            }
             0 => format!("(?&{r})"),
             1 => format!("(?&{r}){other}"),
             2 => format!("{other}(?&{r})"),
